@@ -40,8 +40,8 @@ TRUSTED = [
     'modelled, not verified: Model/Cif/Writer.lean and Model/Cif/Builder.lean are hand transcriptions of io/cif.py',
     'the CIF 1.1 grammar as transcribed into Model/Cif/Parser.lean and, independently, into harness/props/c14_cif.py '
     '(the two readers are compared with each other on every produced text)',
-    'the model has two variants of the quoting decision and of the file-comment escaping (as coded / repaired); the '
-    'harness probes which one the repository implements; theorems are about the repaired variant',
+    'the model keeps the behaviour before commits 667eecd/0de43de (Variant.beforeFix) only for the regression '
+    'counterexamples; theorems and correspondence are about the code as it stands (Variant.current), unconditionally',
 ]
 LEVEL_TEXT = (
     'Lean 4 theorems over all strings (induction on character lists) about an executable model of the writer and an '
@@ -49,14 +49,16 @@ LEVEL_TEXT = (
     'the model tokenizes and parses back to exactly the supplied structure (values up to surrounding blanks) provided '
     'no value contains a newline followed by a semicolon (not representable in CIF 1.1); output is ASCII; comments '
     'yield no token; only characters of the CIF 1.1 character set are written; role ids refer to exactly one author id '
-    'for every builder state. The model is tied to the code by byte-for-byte text equality on generated documents and '
+    'for every builder state; every chain of builder calls saves to a text the complete reader returns as the assembled '
+    'block. The model is tied to the code by byte-for-byte text equality on generated documents and '
     'builder programs; the Lean reader is run on the text of the implementation and compared with a second, '
     'independently written reader and with the supplied structure.'
 )
 LEVEL_NOTE = (
-    'Theorems are about the repaired quoting decision (proposed_fixes/C14-*.patch); the defects of the code as it '
-    'stands are proved as counterexamples and re-found on the real code by the oracle (known findings until the patch '
-    'lands). Number-to-text conversion is delegated to Python/scipp and validated, not modelled.'
+    'Theorems are about the code as it stands (after the repairs 667eecd and 0de43de found by this check); the former '
+    'defects are kept as proved regression counterexamples about the old quoting decision. The high-level builder is '
+    'covered by builder_document_roundtrip (every chain of builder calls). Number-to-text conversion is delegated to '
+    'Python/scipp and validated, not modelled; which tokens stand under which _su tag is proved for the model.'
 )
 TECHNIQUE = 'Lean 4 proof (tokenizer state machine, induction over character lists) + model/implementation text equality'
 
@@ -1319,27 +1321,10 @@ def oracle_program(ctx, ops, consts):
 # correspondence
 # =================================================================================================
 
-QUOTE_PROBES = ['_a', '#a', '$a', '[a', ']a', ';a', 'a\tb', 'loop_', 'data_a', 'save_a', 'stop_', 'global_', 'LOOP_']
-
-
-def probe_variant(ctx, consts):
-    """which variant of the two repaired decisions does the repository implement?"""
-    quoted = []
-    for p in QUOTE_PROBES:
-        t = doc_impl_text(value_doc(p, 'pair'), consts)
-        quoted.append(f"_k.a '{p}'\n" in t)
-    if all(quoted):
-        q = '1'
-    elif not any(quoted):
-        q = '0'
-    else:
-        q = '1'
-        ctx.note('quoting probes are mixed: ' + ''.join('1' if x else '0' for x in quoted))
-    t = doc_impl_text({'mode': 'H', 'comment': '\xb5', 'single': True, 'blocks': [value_doc('x', 'pair')['blocks'][0]]}, consts)
-    h = '1' if '# \\xb5\n' in t else '0'
-    ctx.count(f'variant:quoting={"repaired" if q == "1" else "as-coded"}')
-    ctx.count(f'variant:heading={"repaired" if h == "1" else "as-coded"}')
-    return q + h
+# The model variant compared with the implementation: "11" = the code as it stands (quoting decision of
+# commit 667eecd, escaped file comment of 0de43de).  It is fixed, not probed: a regression of either
+# repair makes the correspondence disagree and the oracle report the defect class again.
+VARIANT = '11'
 
 
 def canon_py_blocks(text):
@@ -1363,7 +1348,7 @@ def load_corpus():
 
 def correspond(ctx):
     consts = get_consts()
-    variant = probe_variant(ctx, consts)
+    variant = VARIANT
     rng = ctx.rng
 
     # (a) single values: _format_value vs formatValue
